@@ -80,18 +80,9 @@ def rule_R09_1(ctx):
         return best_
     best = big_switch(f)
     helper = None
+    none_answer = None
     if best is None:
-        for hf in prog.hand_fns():
-            if hf.module.startswith("lexer") and not hf.from_expansion and hf.locals \
-                    and hf.locals[0] == "bool" and big_switch(hf) is not None:
-                helper = hf
-        if helper is None:
-            r.anchor_missing("continuation table (switch on a Token) in the lexer")
-            return r
-        # helper table: variant -> set of returned constants
-        hb, hinfo = big_switch(helper)
-
-        def ret_consts(tgt):
+        def ret_consts(hf_, tgt):
             outs = set()
             seen_ = set()
             st_ = [tgt]
@@ -101,21 +92,80 @@ def rule_R09_1(ctx):
                     continue
                 seen_.add(x)
                 done = False
-                for s_ in helper.stmts(x):
+                for s_ in hf_.stmts(x):
                     if s_[0] == "=" and s_[1][0] == 0 and not s_[1][1] and s_[2][0] == "use":
                         v_ = mir.const_val(s_[2][1])
                         if isinstance(v_, bool):
                             outs.add(v_)
                             done = True
                 if not done:
-                    st_.extend(helper.succs(x))
+                    st_.extend(hf_.succs(x))
             return outs
-        htab = {}
-        for v, tgt in hinfo["cases"]:
-            htab[v] = ret_consts(tgt)
-        oth = ret_consts(hinfo["otherwise"])
-        for v in variants:
-            htab.setdefault(v, oth)
+
+        def bool_table(hf_, depth=0):
+            """(variant -> set of returned bools, answer for `no token` or
+            None) of a bool-returning helper: its own table, or the (possibly
+            negated) table of a bool helper it wraps."""
+            bs = big_switch(hf_)
+            if bs is not None:
+                tab = {}
+                for v, tgt in bs[1]["cases"]:
+                    tab[v] = ret_consts(hf_, tgt)
+                oth = ret_consts(hf_, bs[1]["otherwise"])
+                for v in variants:
+                    tab.setdefault(v, oth)
+                return tab, None
+            if depth >= 2:
+                return None
+            for c_ in hf_.calls():
+                g_ = prog.fns.get(c_.res) if not c_.is_ptr else None
+                if g_ is None or not g_.full or not g_.locals or g_.locals[0] != "bool" \
+                        or not g_.module.startswith("lexer") or g_.path == hf_.path:
+                    continue
+                sub_ = bool_table(g_, depth + 1)
+                if sub_ is None:
+                    continue
+                neg = None
+                consts = set()
+                for (b_, i_, kind_, payload_) in hf_.defs().get(0, []):
+                    if kind_ == "call":
+                        if payload_.bb == c_.bb:
+                            neg = False
+                        continue
+                    rv_ = payload_
+                    if rv_[0] == "use":
+                        cv_ = mir.const_val(rv_[1]) if not mir.is_place_operand(rv_[1]) else None
+                        if isinstance(cv_, bool):
+                            consts.add(cv_)
+                        elif mir.is_place_operand(rv_[1]) and hf_.canon_op(rv_[1])[0] == ("call", c_.bb):
+                            neg = False
+                    elif rv_[0] == "un" and rv_[1] == "Not" and mir.is_place_operand(rv_[2]) \
+                            and hf_.canon_op(rv_[2])[0] == ("call", c_.bb):
+                        neg = True
+                if neg is None:
+                    continue
+                tab = {v: ({(not b) for b in s_} if neg else set(s_)) for v, s_ in sub_[0].items()}
+                return tab, (consts or None)
+            return None
+        htab = None
+        for hf in prog.hand_fns():
+            if hf.module.startswith("lexer") and not hf.from_expansion and hf.locals \
+                    and hf.locals[0] == "bool" and not hf.is_closure:
+                if not any(c.res == hf.path for c in f.calls() if not c.is_ptr):
+                    continue
+                bt = bool_table(hf)
+                if bt is not None:
+                    helper = hf
+                    htab, none_answer = bt
+        if helper is None:
+            for hf in prog.hand_fns():
+                if hf.module.startswith("lexer") and not hf.from_expansion and hf.locals \
+                        and hf.locals[0] == "bool" and big_switch(hf) is not None:
+                    helper = hf
+                    htab, none_answer = bool_table(hf)
+        if helper is None:
+            r.anchor_missing("continuation table (switch on a Token) in the lexer")
+            return r
         # the helper's result must decide, in Lexer::next, whether a
         # terminator is emitted
         ctrl = None
@@ -204,7 +254,17 @@ def rule_R09_1(ctx):
         if i2 and i2["kind"] == "discr" and i2["enum"] == "std::option::Option<lexer::Token>" \
                 and f.dominates(b2, bb):
             opt_sw = i2
-    if opt_sw is None:
+    if opt_sw is None and none_answer is not None and helper is not None:
+        ks = set()
+        for b_ in none_answer:
+            ks |= (k_true if b_ else k_false)
+        r.inst("no previous token -> %s (answered by %s)" % (sorted(ks), helper.path))
+        if ks == {"suppress"}:
+            r.ok()
+        else:
+            r.fail("%s | start-of-input=%s" % (f.path, ",".join(sorted(ks))),
+                   "a terminator at the start of the input must be dropped")
+    elif opt_sw is None:
         r.unproven.append("no Option<Token> switch dominating the table")
     else:
         none_t = opt_sw["otherwise"]
